@@ -51,14 +51,12 @@ swapped) unless the mnemonic is STRT/STOP/STEP/NULL. -/
 theorem C12_version_swap (kind : SecName) (c : MCase) (o12 : Order) (W12 W20 : Widths) (it : WItem)
     (hkind : kind ≠ .other)
     (hw12 : orderOf "1.2" (secKey kind) it.orig = .ok o12)
-    (hcase : orderOf "1.2" (secKey kind) (caseMap c it.orig) = orderOf "1.2" (secKey kind) it.orig)
     (hconf : TextConf kind it)
     (hpad12 : 1 ≤ W12.middle - it.unit.length - (rhsOf o12 it).length)
     (hpad20 : 1 ≤ W20.middle - it.unit.length - (rhsOf .valueDescr it).length) :
     readItem "1.2" kind c (formatItem o12 W12 it) = readItem "2.0" kind c (formatItem .valueDescr W20 it) := by
-  rw [C03_item "1.2" kind c o12 W12 it hkind hw12 hcase hconf hpad12,
-    C03_item "2.0" kind c .valueDescr W20 it hkind (C03_order_v20 kind hkind _)
-      (C03_case_stable_v20 kind hkind c _) hconf hpad20]
+  rw [C03_item "1.2" kind c o12 W12 it hkind hw12 hconf hpad12,
+    C03_item "2.0" kind c .valueDescr W20 it hkind (C03_order_v20 kind hkind _) hconf hpad20]
 
 /-- **Version swap, one section**: the lines `write` emits for a section under target version 1.2 and under
 2.0 read back to the same item list. -/
@@ -67,13 +65,10 @@ theorem C12_section_version_swap (kind : SecName) (c : MCase) (items : List WIte
     (h12 : writeSection "1.2" (secKey kind) items = .ok l12)
     (h20 : writeSection "2.0" (secKey kind) items = .ok l20)
     (hconf : ∀ it ∈ items, TextConf kind it)
-    (hcase : ∀ it ∈ items,
-      orderOf "1.2" (secKey kind) (caseMap c it.orig) = orderOf "1.2" (secKey kind) it.orig)
     (hmark : ∀ it ∈ items, it.orig.head? ≠ some '#' ∧ it.orig.head? ≠ some '~') :
     readSection "1.2" kind c l12 = readSection "2.0" kind c l20 := by
-  rw [C03_section "1.2" kind c items l12 hkind h12 hconf hcase hmark,
-    C03_section "2.0" kind c items l20 hkind h20 hconf
-      (fun it _ => C03_case_stable_v20 kind hkind c it.orig) hmark]
+  rw [C03_section "1.2" kind c items l12 hkind h12 hconf hmark,
+    C03_section "2.0" kind c items l20 hkind h20 hconf hmark]
 
 /-- **Known finding `well-colon-value-1.2`**: the ~Well item `TIME. 12:30 : start time`.  Written for 2.0 it
 reads back unchanged; written for 1.2 (`TIME.  start time : 12:30`) the reader splits at the LAST colon and
@@ -105,6 +100,21 @@ theorem C12_counterexample_colon_descr :
       some [⟨"LOC".toList, [], "A".toList, "location: site".toList⟩] := by
   decide
 
+/-- **Blank mnemonic with a further period** (found by the check): `HeaderItem('', '', 'x', 'a.b')` in ~Well.
+Written for 1.2 (`. a.b : x`) the name pattern `\.?([^.]*)\.` skips the delimiter period and reads mnemonic
+`a`, unit `b`; written for 2.0 (`. x : a.b`) the item reads back unchanged.  So `mnem_ne` cannot be dropped from
+`C12_version_swap` (C03's property text restricts blank mnemonics to lines with no further period). -/
+theorem C12_counterexample_blank_mnemonic_period :
+    writeSection "1.2" "Well" [⟨[], "UNKNOWN".toList, [], .str "x".toList, "a.b".toList⟩] =
+      .ok [". a.b : x".toList] ∧
+    writeSection "2.0" "Well" [⟨[], "UNKNOWN".toList, [], .str "x".toList, "a.b".toList⟩] =
+      .ok [". x : a.b".toList] ∧
+    readSection "1.2" .well .preserve [". a.b : x".toList] =
+      some [⟨"a".toList, "b".toList, "x".toList, []⟩] ∧
+    readSection "2.0" .well .preserve [". x : a.b".toList] =
+      some [⟨[], [], "x".toList, "a.b".toList⟩] := by
+  decide
+
 /-- the item of the counter-example satisfies every clause of `TextConf` except `value_nocolon` -/
 theorem C12_counterexample_colon_value_conf :
     let it : WItem := ⟨"TIME".toList, "TIME".toList, [], .str "12:30".toList, "start time".toList⟩
@@ -127,7 +137,7 @@ example (c : MCase) :
     readItem "2.0" .well c (formatItem .valueDescr ⟨6, 25⟩
       ⟨"DEPT".toList, "DEPT".toList, "M".toList, .str "1670.0".toList, "start (depth) \"x\"".toList⟩) :=
   ⟨by decide, C12_version_swap .well c .descrValue ⟨6, 25⟩ ⟨6, 25⟩ _ (by decide) (by decide)
-    (by cases c <;> decide) (C03_example_conf .well) (by decide) (by decide)⟩
+    (C03_example_conf .well) (by decide) (by decide)⟩
 
 #print axioms C12_header_independent
 #print axioms C12_header_width_titles_only
@@ -135,6 +145,7 @@ example (c : MCase) :
 #print axioms C12_section_version_swap
 #print axioms C12_counterexample_colon_value
 #print axioms C12_counterexample_colon_descr
+#print axioms C12_counterexample_blank_mnemonic_period
 #print axioms C12_counterexample_colon_value_conf
 
 end Lasio.Wr
